@@ -543,6 +543,93 @@ theorem stale_shm_overwrites_disk_balance (s : State) (b : Bal) (D : Int → Pro
   have := (money_refines s b D (.de u c) h hno).1.2.2 u hu (Or.inr rfl)
   rw [this]; simp [specStep, hu, upd]
 
+/-! #### account expiry: the clean-up sweep is a whole-record writer too -/
+
+/-- `ptt.killUser` on a valid slot (reached through `SetupNewUser → tryCleanUser → checkAndExpireAccount`): it
+succeeds; SHM is untouched; the cleared record still carries the SHM balance in its Money bytes, so SHM money =
+.PASSWDS money = the abstract balance of the removed account; every other byte of the record is 0; all other records
+are byte-identical. -/
+theorem kill_keeps_agreement (s : State) (b : Bal) (D : Int → Prop) (u : Int) (h : Agree s b D) (hu : Valid u) :
+    (killUser s u).2 = .ok .none ∧ (killUser s u).1.shm = s.shm ∧
+    shmAt (killUser s u).1 u = some (b u) ∧ diskAt (killUser s u).1 u = some (b u) ∧
+    Agree (killUser s u).1 b (fun w => D w ∨ w = u) ∧
+    ∃ f', (killUser s u).1.file = some f' ∧
+      (∀ j, j < Gen.Money.recSize → ¬ (Gen.Money.moneyOffset ≤ j ∧ j < Gen.Money.moneyOffset + 4) →
+          (record f' u)[j]? = some 0) ∧
+      ∀ v, Valid v → v ≠ u → ∃ f, s.file = some f ∧ record f' v = record f v := by
+  have hz : (List.replicate RSZ (0 : Nat)).length = Gen.Money.recSize := by simp [RSZ]
+  have hp := agree_psu s b D u (List.replicate RSZ 0) h hu hz
+  obtain ⟨⟨hs, f, hf, hlen⟩, hshm, _⟩ := h
+  have hl := recSetMoney_length (List.replicate RSZ 0) (b u) hz
+  have e : killUser s u = (afterSync s f u (recSetMoney (List.replicate RSZ 0) (b u)), .ok .none) := by
+    unfold killUser
+    exact passwdSyncUpdate_valid s f u (b u) _ hf hu (hshm u hu).1
+  unfold killUser at hp
+  refine ⟨by rw [e], by rw [e]; rfl, ?_, ?_, ?_, ?_⟩
+  · unfold killUser; exact (hp.2.2.1 u hu).1
+  · unfold killUser; exact hp.2.2.2 u hu (Or.inr rfl)
+  · unfold killUser; exact hp.2
+  · rw [e]
+    refine ⟨_, rfl, ?_, ?_⟩
+    · intro j hj hnm
+      rw [record_afterSync f u u _ hlen hl hu hu, if_pos rfl, recSetMoney_other _ _ hz j hnm,
+        List.getElem?_replicate, if_pos (by simpa [RSZ] using hj)]
+    · intro v hv hne
+      exact ⟨f, hf, by rw [record_afterSync f u v _ hlen hl hu hv, if_neg hne]⟩
+
+/-- the clean-up sweep: `killUser` on any list of valid slots, one after the other. -/
+def killAll (s : State) : List Int → State
+  | [] => s
+  | k :: ks => killAll (killUser s k).1 ks
+
+/-- a whole sweep keeps SHM, `.PASSWDS` and the abstract table in step on EVERY slot, with the balances unchanged
+(those of the removed accounts included), and brings every swept slot into step even if it was not before. -/
+theorem sweep_keeps_agreement (ks : List Int) : ∀ (s : State) (b : Bal) (D : Int → Prop), Agree s b D →
+    (∀ k ∈ ks, Valid k) → Agree (killAll s ks) b (fun w => D w ∨ w ∈ ks) := by
+  induction ks with
+  | nil =>
+      intro s b D h _
+      exact agree_mono _ _ _ _ h (fun w hw => by
+        rcases hw with hw | hw
+        · exact hw
+        · simp at hw)
+  | cons k ks ih =>
+      intro s b D h hv
+      have h1 := (kill_keeps_agreement s b D k h (hv k (by simp))).2.2.2.2.1
+      have h2 := ih _ b _ h1 (fun k' hk' => hv k' (by simp [hk']))
+      exact agree_mono _ _ _ _ h2 (fun w hw => by
+        rcases hw with hw | hw
+        · exact Or.inl (Or.inl hw)
+        · rcases List.mem_cons.1 hw with e | e
+          · exact Or.inl (Or.inr e)
+          · exact Or.inr e)
+
+/-- witness for the rule `killUser` has to keep (clear the record THROUGH `passwdSyncUpdate`): writing the empty
+record directly (`cmbbs.PasswdUpdate(uid, &UserecRaw{})`) leaves Money = 0 in `.PASSWDS` while SHM keeps the balance:
+they disagree for every removed account that owned something. -/
+theorem kill_without_sync_loses_balance (s : State) (b : Bal) (D : Int → Prop) (f : List Nat) (u : Int)
+    (h : Agree s b D) (hf : s.file = some f) (hu : Valid u) (hne : b u ≠ 0) :
+    diskAt (afterSync s f u (List.replicate RSZ 0)) u = some 0 ∧
+    shmAt (afterSync s f u (List.replicate RSZ 0)) u = some (b u) ∧
+    diskAt (afterSync s f u (List.replicate RSZ 0)) u ≠ shmAt (afterSync s f u (List.replicate RSZ 0)) u := by
+  obtain ⟨⟨hs, f0, hf0, hlen⟩, hshm, _⟩ := h
+  have e : f0 = f := by rw [hf] at hf0; exact (Option.some.inj hf0).symm
+  subst e
+  have hz : (List.replicate RSZ (0 : Nat)).length = Gen.Money.recSize := by simp [RSZ]
+  have hlay := gen_facts.2.2.2.1
+  have hd : diskAt (afterSync s f0 u (List.replicate RSZ 0)) u = some 0 := by
+    unfold diskAt afterSync
+    simp only [Option.bind_some]
+    rw [moneyBytes_afterSync f0 u u _ hlen hz hu hu, if_pos rfl, List.drop_replicate, List.take_replicate]
+    have : min 4 (RSZ - Gen.Money.moneyOffset) = 4 := by
+      have : RSZ = Gen.Money.recSize := rfl
+      omega
+    rw [this]; rfl
+  refine ⟨hd, (hshm u hu).1, ?_⟩
+  rw [hd, shmAt_afterSync, (hshm u hu).1]
+  intro e
+  exact hne (Option.some.inj e).symm
+
 /-! #### balances never go negative -/
 
 /-- if every balance is ≥ 0 at the start and every `set` and every registration stores a value ≥ 0, then after any history inside
